@@ -522,7 +522,7 @@ def run_sequences(ctx, nseq, oracle, label, profiles=None):
             if reached and len(ctx.samples) < 3:
                 ctx.sample({"sid": sid, "steps": [repr(s[3]) for s in steps[:4]], "impl": canon[:60]})
     bad = ctx.model_mismatches("run_auth", "(list Z * list (amsg * env))", cases,
-                               imports="From PV Require Import C39 C14.", shard=60)
+                               imports="From PV Require Import C39 C14.", shard=90)
     for i in bad[:3]:
         ctx.disagree("AuthHandler behaviour differs from model (run_auth)",
                      case=case_repr(kept[i][0], kept[i][1]), impl=kept[i][2])
@@ -549,7 +549,7 @@ def real_key_cases(ctx):
         p = os.path.join(tests, fn)
         if os.path.exists(p):
             keys.append((cls.from_private_key_file(p), algs))
-    other = paramiko.RSAKey.from_private_key_file(os.path.join(tests, "_support/rsa-lonely.key"))
+    other = paramiko.RSAKey.generate(2048)      # (tests/_support/rsa-lonely.key is the same key as rsa.key)
     env = {"res": 0, "gss": False, "mechok": True, "tok": 2, "micok": True, "kexctx": False, "banner": False}
     variants = ["valid", "other-sid", "other-user", "other-service", "other-alg", "other-key", "probe",
                 "callback-failed", "callback-partial", "flipped-bit"]
@@ -698,10 +698,10 @@ def run(ctx):
                         "under a given key (symbolic signature assumption)",
                         "usernames / services are valid UTF-8 (byte equality = str equality)"]
     ctx.prove()
-    scale = 12 if ctx.thorough else 1
+    scale = 6 if ctx.thorough else 1
     gss_witness(ctx)
-    unbound = run_sequences(ctx, 260 * scale, c14_oracle, "seq")
-    blob_cases(ctx, 120 * scale)
+    unbound = run_sequences(ctx, 160 * scale, c14_oracle, "seq")
+    blob_cases(ctx, 80 * scale)
     n = real_key_cases(ctx)
     ctx.notes.append("real-key signature cases: %d; GssapiWithMicAuthHandler table entries are unbound functions: "
                      "%d dispatches needed an explicit self (the real Transport.run would raise TypeError there and "
